@@ -65,7 +65,7 @@ DataFrame(cols, index, data) == V("DataFrame", "", 0, <<Tuple(cols), Tuple(index
         \* cols = sequence of Strs (unique); data = one Tuple of cell values per column, in column order
 Obj(cls, fields) == V("Obj", cls, 0, fields)      \* instance of an importable dataclass, fields in order
 Call(sig, args, kw) == V("Call", sig, 0, <<Tuple(args), Dict(kw)>>)
-        \* one call f(*args, **kw) of a memoized function (section 4); sig names the signature of f;
+        \* one call f( *args, **kw) of a memoized function (section 4); sig names the signature of f;
         \* kw = sequence of Pair(Str(name), value) in the order written.  Never a member of another value.
         \* Eq on calls (the generic branch of Sim) = the same call: same signature, Eq positional values in
         \* order, the same keywords with Eq values (the order in which keywords are written is not significant)
@@ -303,15 +303,15 @@ KeyComplete(v, w, fx) == Eq(v, w) /\ ~DontCare(v, w) => KeyVal(v, fx) = KeyVal(w
 ---------------------------------------------------------------------------
 (* 4. Calls of a memoized function (pipefunc/cache.py, memoize.<locals>.wrapper).                    *)
 (*                                                                                                  *)
-(*        def wrapper(*args, **kwargs):                                                             *)
+(*        def wrapper( *args, **kwargs):                                                             *)
 (*            key = try_to_hashable((args, kwargs), ...)     # MemoKey                              *)
 (*            if key in cache: return cache.get(key)         # a stored result is returned           *)
-(*            result = func(*args, **kwargs); cache.put(key, result)                                *)
+(*            result = func( *args, **kwargs); cache.put(key, result)                                *)
 (*                                                                                                  *)
 (* The property: the stored result is returned only for a call whose ARGUMENTS equal those of the    *)
 (* call that produced it.  The arguments of a call are what the function receives, so they are       *)
 (* defined through the signature of the memoized function.  Two signatures are modelled:             *)
-(*    "var"   : def f(*args, **kwargs)       receives the tuple args and the dict kwargs themselves:  *)
+(*    "var"   : def f( *args, **kwargs)       receives the tuple args and the dict kwargs themselves:  *)
 (*              f(1, 2), f((1, 2)), f((1, 2), {}), f(1, q=2), f(1, ("q", 2)) are all different calls  *)
 (*    "fixed" : def f(p, q=0, *, r=1)        receives p, q, r (Python's binding rules, defaults)      *)
 CallArgs(c) == c.a[1].a                              \* the positional arguments, in order
@@ -363,7 +363,7 @@ CallWellFormed(c) == /\ c.t = "Call" /\ c.s \in {"var", "fixed"}
 (* The key of the wrapper.  `mx` selects how the wrapper composes the object it hands to to_hashable: *)
 (*   {}            as coded: the pair (args, kwargs), always                                          *)
 (*   {"bareargs"}  a plausible "optimisation": (args, kwargs) if kwargs else args  - then a           *)
-(*                 positional-only call f(t, d) with a tuple and a dict IS the pair of f(*t, **d)      *)
+(*                 positional-only call f(t, d) with a tuple and a dict IS the pair of f( *t, **d)      *)
 (*   {"kwvalues"}  args + tuple(kwargs.values()): keyword NAMES and the positional/keyword split lost  *)
 (* The two variants exist so that TLC exhibits that MemoSound has teeth on the universe of calls.      *)
 MemoObject(c, mx) ==
